@@ -337,7 +337,8 @@ func main() {
 	type ref struct{ k, kind int }
 	var refs []ref
 	for i, k := range ks {
-		lines = append(lines, "resolve 0 100 "+k.wire)
+		// the oracle seed varies: verdict and tables must not depend on it
+		lines = append(lines, fmt.Sprintf("resolve %d 100 ", i%7)+k.wire)
 		refs = append(refs, ref{i, 0})
 		lines = append(lines, "wf "+k.wire)
 		refs = append(refs, ref{i, 1})
